@@ -18,10 +18,15 @@ ASSUMPTIONS = ['bounded scope, not a proof', 'an index selects a positional slot
 
 
 def units(tier, seed):
-    return KC.unit_list('thorough' if tier == 'thorough' else 'quick')
+    return KC.unit_list('thorough' if tier == 'thorough' else 'quick') + [('method-names',)]
 
 
-run_unit = KC.run_c11
+def run_unit(unit):
+    if unit[0] == 'method-names':
+        # a function named like a method of its first argument (count, join, ...) with that parameter ignored
+        from bounded import reserved_names as RN
+        return RN.run_method_names('c11')
+    return KC.run_c11(unit)
 
 
 def _dispatch_probe(modname, clsname, how):
@@ -64,6 +69,9 @@ def replay(w):
         except Exception as e:      # noqa
             why = 'raises %r' % (e,)
         return bool(why), why or 'the whole configuration is handed on'
+    if 'methodname' in w:
+        from bounded import reserved_names as RN
+        return RN.replay(w)
     return KC.replay_c11(w)
 
 
